@@ -49,19 +49,35 @@ fn eval_plan(p: &rparse::Parsed) -> (bool, Option<usize>, bool, bool) {
     if names > 12 || p.ast.max_list() > 12 || p.ast.size() > 4000 {
         return (false, None, true, false);
     }
+    // worst-case work estimate (pure harness cost bound): counting is 2^len, a fixed point
+    // multiplies its body by the lattice height
+    let iters = (1u64 << names.min(20)) + 2;
+    if work(&p.ast, iters) > 3_000_000 {
+        return (false, None, true, false);
+    }
     if !p.ast.has_fix() {
         return (true, None, false, false);
     }
     if gen::syntactically_monotone(&p.ast) {
         // converges within the lattice height
-        let cost_ok = names <= 8;
-        return (cost_ok, Some((1usize << names) + 2), !cost_ok, false);
+        return (true, Some((1usize << names) + 2), false, false);
     }
     // not syntactically monotone: may or may not converge; observe under the limit for small cases
     if names <= 5 && p.ast.size() <= 60 {
         (true, Some((1usize << names) + 2), false, false)
     } else {
         (false, None, false, true)
+    }
+}
+
+fn work(a: &crate::rast::RAst, iters: u64) -> u64 {
+    use crate::rast::RAst;
+    let kids: u64 = a.children().iter().map(|c| work(c, iters)).fold(0u64, |x, y| x.saturating_add(y));
+    match a {
+        RAst::CountConst(_, l, _) => kids.saturating_add(1u64 << l.len().min(40)),
+        RAst::CountList(_, l, r) => kids.saturating_add(1u64 << (l.len() + r.len()).min(40)),
+        RAst::Fix(..) => kids.saturating_add(1).saturating_mul(iters),
+        _ => kids.saturating_add(1),
     }
 }
 
